@@ -209,6 +209,15 @@ impl Property for C01 {
             seq.push((String::new(), Some(String::new()), true));
             seq.push((judged[0].0.clone(), judged[0].1.clone(), false));
             seq.push((String::new(), Some(String::new()), true));
+            // a text that is rejected only AFTER it was rewritten (its normalised form is too long), then every text
+            // again, twice: tokenizer and list swap their buffers at every collected result, so what a failed analysis
+            // leaves behind is met by every second later text
+            seq.push(("ﷺ".repeat(2100), None, true));
+            for _ in 0..2 {
+                for (t, n) in judged.iter() {
+                    seq.push((t.clone(), n.clone(), true));
+                }
+            }
             let mode = MODES[judged[0].0.len() % 3];
             let res = guarded(|| -> Result<(), (String, String)> {
                 let mut tok = sudachi::analysis::stateful_tokenizer::StatefulTokenizer::new(&dict, mode);
